@@ -414,6 +414,15 @@ def dispatch_checks():
         p.write_bytes(b"\x01\x02\x03\x04\x05")
         if fs.calculate_checksum(ChecksumType.NULL_CHECKSUM, p, 5) != bytes(4):
             bad.append("NULL checksum is not four zero bytes")
+        # verification is true exactly for the calculated value, for every type (also the null checksum)
+        for ct in (ChecksumType.NULL_CHECKSUM, ChecksumType.MODULAR, ChecksumType.CRC_32, ChecksumType.CRC_32C):
+            for k in (0, 3, 5):
+                good = fs.calculate_checksum(ct, p, k)
+                if fs.verify_checksum(good, ct, p, k) is not True:
+                    bad.append(f"verify_checksum rejects the calculated value ({ct.name}, prefix {k})")
+                for wrong in (bytes([good[0] ^ 0x80]) + good[1:], good[:3] + bytes([good[3] ^ 1])):
+                    if fs.verify_checksum(wrong, ct, p, k) is not False:
+                        bad.append(f"verify_checksum accepts {wrong.hex()} for {ct.name}, prefix {k} (calculated {good.hex()})")
         try:
             fs.calculate_checksum(ChecksumType.CRC_32_PROXIMITY_1, p, 5)
             bad.append("unimplemented checksum type accepted")
